@@ -140,6 +140,9 @@ func synthBzip2(r *Rand) bzSynth {
 		if r.Intn(5) == 0 {
 			nsymAlpha = 1 + r.Intn(256)
 		}
+		if r.Intn(12) == 0 {
+			nsymAlpha = 256 // the whole byte alphabet: numSyms = 258, the largest legal value
+		}
 		used := map[byte]bool{}
 		for len(used) < nsymAlpha {
 			used[byte(r.U64())] = true
@@ -284,6 +287,11 @@ func synthBzip2(r *Rand) bzSynth {
 				w.bit(0)
 			}
 		}
+		// with an under-subscribed tree, sometimes write the first code word that no symbol owns
+		hole := -1
+		if r.Intn(3) == 0 {
+			hole = r.Intn(len(syms))
+		}
 		for i, s := range syms {
 			g := i / 50
 			t := 0
@@ -292,6 +300,22 @@ func synthBzip2(r *Rand) bzSynth {
 			}
 			if t >= len(lens) {
 				t = 0
+			}
+			if i == hole {
+				maxLen, next := 0, uint32(0)
+				for _, l := range lens[t] {
+					maxLen = max(maxLen, l)
+				}
+				for k, l := range lens[t] {
+					if l == maxLen && codes[t][k]+1 > next {
+						next = codes[t][k] + 1
+					}
+				}
+				if maxLen > 0 && next < 1<<uint(maxLen) {
+					w.code(next, uint(maxLen))
+					res.valid = false
+					continue
+				}
 			}
 			w.code(codes[t][s], uint(lens[t][s]))
 		}
@@ -335,8 +359,14 @@ func execBz(o *Out, id, line string) {
 		in := unhx(kv["in"])
 		var out []byte
 		var err error
-		if !withWatchdogSec(60, func() { out, err = dsnetBunzipAll(in) }) {
+		var pnc interface{}
+		if !withWatchdogSec(60, func() { _, pnc = catch(func() { out, err = dsnetBunzipAll(in) }) }) {
 			o.Violate("C08", "bzip2.Reader did not finish within 60s", "bz-hang", line)
+			return
+		}
+		if pnc != nil {
+			o.Violate("C08", fmt.Sprintf("bzip2.Reader panicked: %v", pnc), "bz-panic", line)
+			o.Emit(id, line, "", "panic", kv["in"])
 			return
 		}
 		cls := bzClass(err)
@@ -345,7 +375,7 @@ func execBz(o *Out, id, line string) {
 		if len(out) > 0 || err == nil {
 			key = kv["in"]
 		}
-		o.Emit(id, line, "bz id="+id+" in="+hx(in), hx(out)+":"+cls, key)
+		o.Emit(id, line, "bz id="+id+" in="+hx(in), outSummary(out)+":"+cls, key)
 		if cls != "eof" && cls != "corrupt" && cls != "ueof" && cls != "deprecated" {
 			o.Violate("C09", "bzip2.Reader failed with class "+cls, "class-"+cls, line)
 		}
@@ -358,6 +388,41 @@ func execBz(o *Out, id, line string) {
 			o.Violate("C03", "both accept, outputs differ from libbzip2's", "output-libbz2", line)
 		} else if !commonPrefixOK(out, lout) {
 			o.Violate("C03", "bytes delivered before the error differ from libbzip2's", "prefix-libbz2", line)
+		}
+		if err == nil && len(in) <= 20000 {
+			// Read sizes (zero-length buffers in the middle included) and source shapes
+			for _, sched := range [][]int{{1}, {0, 0, 1, 0, 7}, {3, 100000}, {100, 0, 100}, {5, 0}} {
+				zr, _ := dbzip2.NewReader(bytes.NewReader(in), nil)
+				var got []byte
+				var e error
+				_, p := catch(func() {
+					for i := 0; e == nil && i < 1<<22; i++ {
+						buf := make([]byte, sched[min(i, len(sched)-1)])
+						if i >= len(sched) && len(buf) == 0 {
+							buf = make([]byte, 64)
+						}
+						var k int
+						k, e = zr.Read(buf)
+						got = append(got, buf[:k]...)
+					}
+				})
+				if p != nil || e != io.EOF || !bytes.Equal(got, out) {
+					o.Violate("C10", fmt.Sprintf("bzip2 Read sizes %v change the result: panic=%v err=%v, %d bytes vs %d", sched, p, e, len(got), len(out)), "read-size-dependent", line)
+					break
+				}
+				if zr.OutputOffset != int64(len(got)) || zr.InputOffset != int64(len(in)) {
+					o.Violate("C11", fmt.Sprintf("bzip2 counters after %d in / %d out: InputOffset=%d OutputOffset=%d", len(in), len(got), zr.InputOffset, zr.OutputOffset), "bz-counters", line)
+					break
+				}
+			}
+			for _, src := range append([]string{"byte", "byteeof"}, realKinds...) {
+				zr, _ := dbzip2.NewReader(mkSource(src, in, -1, 0, nil, []int{3, 1, 8}), nil)
+				got, e := io.ReadAll(zr)
+				if e != nil || !bytes.Equal(got, out) {
+					o.Violate("C10", fmt.Sprintf("bzip2 through source %s: err=%v equal=%v", src, e, bytes.Equal(got, out)), "source-shape", line)
+					break
+				}
+			}
 		}
 		if want, ok := kv["plain"]; ok {
 			if err != nil || !bytes.Equal(out, unhx(want)) {
@@ -615,6 +680,20 @@ func genBzst(r *Rand, tier string, emit func(string)) {
 		if r.Intn(20) == 0 {
 			for k := 0; k < 30; k++ {
 				ss = append(ss, "1")
+			}
+		}
+		if r.Intn(8) == 0 {
+			// a run written with 25..40 RUNA/RUNB symbols whose high symbols are RUNA: the
+			// 32-bit run counter wraps to a small, in-range length (libbzip2 rejects > 24)
+			ss = nil
+			for k := 1 + r.Intn(4); k > 0; k-- {
+				ss = append(ss, strconv.Itoa(r.Intn(2)))
+			}
+			for k := 21 + r.Intn(16); k > 0; k-- {
+				ss = append(ss, "0")
+			}
+			if len(dict) >= 2 && r.Bool() {
+				ss = append(ss, strconv.Itoa(2+r.Intn(len(dict)-1)))
 			}
 		}
 		emit(fmt.Sprintf("mtfd dict=%s syms=%s blk=%d", hx(dict), joinOr(ss, ","), r.Pick([]int{5, 50, 100000, 900000})))
